@@ -711,6 +711,8 @@ def one_spec_object_on_different_targets(col):
         ('Check in a filter with default SKIP', lambda: ('rows', Iter().filter(Check(type=int, default=SKIP)).all())),
         ('Coalesce(default=T[..])', lambda: Coalesce('zz', default=T['port'])),
         ('Match(default=T[..])', lambda: Match(M == 'never', default=T['port'])),
+        ('Match(type, default=constant)', lambda: Match({'v': int, str: object}, default='no match')),
+        ('Match(pattern) without default', lambda: Match({'v': int, str: object})),
         ('Or(default=S.x)', lambda: Match(Or(M == 'never', default=S.fallback))),
         ('And(default=[T[..]])', lambda: Match(And(M == 'never', default=[T['port']]))),
         ('Switch(default=T[..])', lambda: Match(Switch([(M == 'never', Val(0))], default=T['port']))),
@@ -736,6 +738,13 @@ def one_spec_object_on_different_targets(col):
                               '%s: evaluation #%d of one spec object, on %r with scope %r: %r ; a fresh equal spec object gives %r'
                               % (name, i + 1, t, sc, a, b), None)
                 break
+            # the object's other entry points, where it has any (Match.matches / Match.verify, Spec.glom, Fill.fill, Iter.first ...): asking
+            # them is a read-only use as well
+            for entry in ('matches', 'verify', 'fill'):
+                fn = getattr(persistent, entry, None)
+                if callable(fn):
+                    call(fn, dict(t))
+                    col.count('calls_in_history')
             if snapshot(persistent) != snap:
                 col.violation('C06/spec-modified:%s' % name.split('(')[0], '%s: the spec object changed during evaluation #%d: %s'
                               % (name, i + 1, first_diff(snap, snapshot(persistent))), None)
